@@ -238,3 +238,20 @@ func (ss *segmentStack) isEmpty() bool {
 	}
 	return true
 }
+
+// hasMergeOperations returns true when a segment of this stack, or of
+// one of its child stacks, holds an unresolved merge operation.
+func (ss *segmentStack) hasMergeOperations() bool {
+	for _, seg := range ss.a {
+		a, ok := seg.(*segment)
+		if !ok || a.totOperationMerge > 0 {
+			return true
+		}
+	}
+	for _, childSegStack := range ss.childSegStacks {
+		if childSegStack.hasMergeOperations() {
+			return true
+		}
+	}
+	return false
+}
